@@ -12,6 +12,9 @@ import (
 // varargs, one slice, mixed slices and scalars of every Go integer/float type that can hold the
 // value exactly, numeric strings) is drawn from r and is not part of the logical value.
 // shapes collects a short tag per leaf for the distribution histogram.
+// OnDecodedChildFailure is called when secs2.Decode/DecodeOwned rejects the bytes of an 'R' node.
+var OnDecodedChildFailure func(raw []byte, err error)
+
 func Build(n *Node, r *rand.Rand, shapes func(string)) secs2.Item {
 	switch n.Kind {
 	case 'E':
@@ -26,7 +29,12 @@ func Build(n *Node, r *rand.Rand, shapes func(string)) secs2.Item {
 			it, err = secs2.DecodeOwned(append([]byte(nil), n.Bytes...))
 		}
 		if err != nil {
-			panic("s2t.Build: raw bytes of an R node do not decode: " + err.Error())
+			// implementation misbehaviour is reported, never fatal: the raw bytes are a valid
+			// (possibly non-canonical) encoding by construction
+			if OnDecodedChildFailure != nil {
+				OnDecodedChildFailure(n.Bytes, err)
+			}
+			return nil // skipped by NewListItem; the tree's own checks then report the difference too
 		}
 		return it
 	case 'L':
